@@ -25,16 +25,16 @@ import (
 const verifDir = "/verif"
 
 type propCfg struct {
-	Level      string
-	Rule       string
-	QuickRuns  int // per worker
-	QuickBud   time.Duration
-	ThorRuns   int
-	ThorBud    time.Duration
-	Required   []string // probes / fault kinds that must be non-zero in the thorough tier
-	Race       bool     // additionally run the race-detector stage
-	Assume     []string
-	RealStub   string
+	Level     string
+	Rule      string
+	QuickRuns int // per worker
+	QuickBud  time.Duration
+	ThorRuns  int
+	ThorBud   time.Duration
+	Required  []string // probes / fault kinds that must be non-zero in the thorough tier
+	Race      bool     // additionally run the race-detector stage
+	Assume    []string
+	RealStub  string
 }
 
 var commonAssume = []string{
@@ -52,6 +52,11 @@ const ruleGeneric = "cases are whole simulated executions drawn by pgregory.net/
 var props = map[string]propCfg{
 	"C01": {Level: "exploration", QuickRuns: 1500, QuickBud: 22 * time.Second, ThorRuns: 200000, ThorBud: 10 * time.Minute,
 		Required: []string{"callback_raced_completion", "callback_success", "storage_err", "request_deleted", "restart"}},
+	"C10": {Level: "fault_enumeration", QuickRuns: 1200, QuickBud: 25 * time.Second, ThorRuns: 200000, ThorBud: 10 * time.Minute,
+		Rule:     "stage 1 enumerates completely: 4 provider configurations × 12 workloads × {no bystander, callback bystander, metadata bystander} × every storage call of the workload's trace × every fault kind the property names for that operation, singly and in all pairs (second fault anywhere in the trace as it unfolds after the first); stage 2 draws random fault schedules over random worlds with pgregory.net/rapid. A case is non-trivial when at least one fault fired or at least two tasks were interleaved; distinct = distinct (schedule signature × outcome signature), counted by hash",
+		Required: []string{"storage_err", "storage_nil_record", "storage_key_without_cert", "storage_cert_without_key", "storage_empty_cert", "alg_unusable", "bystander_during_fault", "recovery_request"}},
+	"C08": {Level: "exploration", QuickRuns: 1500, QuickBud: 22 * time.Second, ThorRuns: 200000, ThorBud: 10 * time.Minute,
+		Required: []string{"sso_persisted", "sso_not_persisted", "storage_err", "body_error_at"}},
 }
 
 type violation struct {
@@ -72,7 +77,7 @@ type workerOut struct {
 	StateHash  []uint64          `json:"state_hash"`
 	Fired      map[string]int    `json:"fired"`
 	Probes     map[string]int    `json:"probes"`
-	SimNs      int64             `json:"sim_ns"`
+	SimS       float64           `json:"sim_s"`
 	Steps      int               `json:"steps"`
 	NoOps      int               `json:"noops"`
 	Tasks      int               `json:"tasks"`
@@ -185,7 +190,7 @@ func main() {
 			if cfg.Race && i%2 == 1 {
 				mode, b, gmp = "race", raceBin, "4"
 			}
-			args := []string{"-test.run", "^TestWorker$", "-test.timeout", "0", "-prop", prop, "-tier", tier, "-seed", fmt.Sprint(seed), "-worker", fmt.Sprint(i),
+			args := []string{"-test.run", "^TestWorker$", "-test.timeout", "0", "-prop", prop, "-tier", tier, "-seed", fmt.Sprint(seed), "-worker", fmt.Sprint(i), "-workers", fmt.Sprint(workers),
 				"-maxruns", fmt.Sprint(runs), "-budget", budget.String(), "-out", of, "-known", filepath.Join(verifDir, "known_findings.json"),
 				"-replaydir", filepath.Join(verifDir, "replays"), "-mode", mode, "-beginlog", filepath.Join(tmp, fmt.Sprintf("begin%d.json", i))}
 			cmd := exec.Command(b, args...)
@@ -264,7 +269,7 @@ func main() {
 		}
 		total.Runs += o.Runs
 		total.Unbuilt += o.Unbuilt
-		total.SimNs += o.SimNs
+		total.SimS += o.SimS
 		total.Steps += o.Steps
 		total.NoOps += o.NoOps
 		total.Tasks += o.Tasks
@@ -346,7 +351,7 @@ func main() {
 		"probes":                     probes,
 		"outcomes":                   outcomes,
 		"runs_with_full_flow":        total.RunsFlow,
-		"simulated_time_covered_s":   float64(total.SimNs) / 1e9,
+		"simulated_time_covered_s":   total.SimS,
 		"steps_executed":             total.Steps,
 		"steps_noop":                 total.NoOps,
 		"tasks_run":                  total.Tasks,
@@ -369,7 +374,7 @@ func main() {
 	if err := os.WriteFile(filepath.Join(verifDir, "evidence", prop+".json"), b, 0o644); err != nil {
 		die(2, "cannot write evidence: %v", err)
 	}
-	fmt.Printf("vcheck: %d simulated runs, %d distinct non-trivial, %d schedules, %.0f simulated s, %.1f s wall\n", total.Runs, len(hashes), len(sched), float64(total.SimNs)/1e9, wall)
+	fmt.Printf("vcheck: %d simulated runs, %d distinct non-trivial, %d schedules, %.0f simulated s, %.1f s wall\n", total.Runs, len(hashes), len(sched), total.SimS, wall)
 	keys := make([]string, 0, len(known))
 	for k := range known {
 		keys = append(keys, k)
